@@ -89,6 +89,23 @@ def _late_datagrams(rig, transports):
     return None
 
 
+_CAP = {"spa_tasks": 0, "endpoints": 0}
+
+
+def _measure_cap():
+    rig = Rig(Chooser())
+    if not rig.connect(200.0):
+        rig.close()
+        raise core.HarnessError("C10: no connection to measure what one connection owns")
+    rig.loop.run_for(5.0)
+    with rig.loop.running():
+        n = sum(1 for t in asyncio.all_tasks(rig.loop) if not t.done() and t.get_name().startswith("SPA:"))
+    e = len(rig.net.open_transports())
+    rig.exit()
+    rig.close()
+    return n, e
+
+
 def _lib_tasks(loop):
     return [t for t in asyncio.all_tasks(loop) if not t.done() and not t.get_name().startswith("HARNESS:")]
 
@@ -211,6 +228,18 @@ def _run(ch, kind, k, window=0.0, variant="blackout"):
             if why is None and still:
                 why = ("endpoint-leak", f"{DISCOVERY_GRACE}s after reset {len(still)} endpoint(s) of the abandoned "
                                         f"connection are not closed")
+    if why is None and kind == "reset" and _CAP["spa_tasks"]:
+        # nothing of the abandoned connection attempt may come to life later either: whatever the manager does next,
+        # the live SPA tasks / open endpoints never exceed what ONE connection owns
+        rig.loop.run_until(t_inj + 40.0)
+        with rig.loop.running():
+            live = sorted(t.get_name() for t in asyncio.all_tasks(rig.loop) if not t.done() and t.get_name().startswith("SPA:"))
+        nopen = len(rig.net.open_transports())
+        if len(live) > _CAP["spa_tasks"]:
+            why = ("task-leak", f"40 s after the reset {len(live)} SPA tasks are alive, one connection owns {_CAP['spa_tasks']}: "
+                                f"{sorted(set(x for x in live if live.count(x) > 1))[:3]} are there more than once")
+        elif nopen > _CAP["endpoints"]:
+            why = ("endpoint-leak", f"40 s after the reset {nopen} endpoints are open, one connection owns {_CAP['endpoints']}")
     if why is None:
         n0 = len(calls)
         bad = _late_datagrams(rig, open_before)
@@ -454,13 +483,15 @@ def _cycles(n_cycles=6):
 
 
 def run(ctx):
+    _CAP["spa_tasks"], _CAP["endpoints"] = _measure_cap()  # before the worker pool forks
+    ctx.set("one_connection_owns", dict(_CAP))
     n, marks = _baseline_len()
     ctx.set("baseline_loop_steps", n)
     ctx.set("baseline_state_first_step", marks)
     # every step through discovery+handshake+first steady seconds; then a stride through the long
     # steady/blackout/error tail (those steps are repetitions of the same polling pattern)
     dense_until = marks.get("CONNECTED", 700) + 400
-    ks = list(range(0, dense_until, 1 if not ctx.quick else 4))
+    ks = list(range(0, dense_until, 1))
     tail_stride = 97 if ctx.quick else 23
     ks += list(range(dense_until, n, tail_stride))
     for stname, first in marks.items():
@@ -561,6 +592,7 @@ def replay(ctx, data):
         if why:
             ctx.violation(f"C10|cycles|{why[0]}", why[1], data)
     else:
+        _CAP["spa_tasks"], _CAP["endpoints"] = _measure_cap()
         res = _job(((data["kind"], data["k"], data["window"], data.get("variant", "blackout")), [tuple(p) for p in data["prefix"]]))
         ctx.merge_violations(res["violations"])
     ctx.set("evaluations", 1)
